@@ -389,6 +389,14 @@ def rng_tracking():
 # every Backend stub that we did not override must become "undecided", not NotImplementedError
 def _undecided(name):
     def f(*a, **k):
+        vals = list(a) + list(k.values())
+        if vals and not any(isinstance(v, (GTensor, SInt)) or (isinstance(v, (list, tuple)) and any(isinstance(x, (GTensor, SInt)) for x in v)) for v in vals):
+            # concrete arguments (index vectors, permutations, shapes): the callable the numpy backend registers, i.e. what runs natively
+            from tensorly.backend.numpy_backend import NumpyBackend
+            real = NumpyBackend.__dict__.get(name)
+            real = getattr(real, "__func__", real)
+            if real is not None:
+                return real(*a, **k)
         raise EngineError(f"backend primitive {name!r} has no contract in E1-generic")
 
     return staticmethod(f)
